@@ -41,6 +41,29 @@ Inductive expr :=
 | Pow (a : expr) (n : Z)          (* integer powers; negative = reciprocal *)
 | Fn (f : name) (a : expr).       (* sin cos tan exp log sqrt ... *)
 
+(** * Symbolic partial derivative (proved correct over the reals in Theory/Deriv.v) *)
+Definition fsin : name := "sin"%string. Definition fcos : name := "cos"%string.
+Definition fexp : name := "exp"%string. Definition fsqrt : name := "sqrt"%string.
+Definition flog : name := "log"%string.
+
+Definition dfn (f : name) (a : expr) : expr :=
+  if String.eqb f fsin then Fn fcos a
+  else if String.eqb f fcos then Mul (Num (-1 # 1)) (Fn fsin a)
+  else if String.eqb f fexp then Fn fexp a
+  else if String.eqb f fsqrt then Pow (Mul (Num (2 # 1)) (Fn fsqrt a)) (-1)
+  else if String.eqb f flog then Pow a (-1)
+  else Num 0.
+
+Fixpoint deriv (x : name) (e : expr) : expr :=
+  match e with
+  | Num _ => Num 0
+  | Var y => if String.eqb y x then Num 1 else Num 0
+  | Add a b => Add (deriv x a) (deriv x b)
+  | Mul a b => Add (Mul (deriv x a) b) (Mul a (deriv x b))
+  | Pow a n => Mul (Mul (Num (inject_Z n)) (Pow a (n - 1))) (deriv x a)
+  | Fn f a => Mul (dfn f a) (deriv x a)
+  end.
+
 Section Eval.
 Variable T : Type.
 Variable ofQ : Q -> T.
